@@ -26,14 +26,14 @@ CHECKS = {
              'region, all short strings and token sequences, over every seed of every parsable class (379 classes, '
              '3 entry points + extra parse functions): the call returns or raises a documented error. Bounded: '
              'deviations <= 2 from a seed.'
-             ' Further families: one byte raised to 3f/40/7f/ff with 300 filler octets appended (two fillers), JSON member values replaced by 16 alternatives, every uint32-prefixed SSH algorithm/curve name replaced by every other member of its enumeration. Every octet-string constant the library defines (and the RFC 8446 downgrade sentinels) written over every seed at every offset; BER spellings (long-form and indefinite lengths) of the LDAP frames as seeds.',
+             ' Further families: one byte raised to 3f/40/7f/ff with 300 filler octets appended (two fillers), JSON member values replaced by 16 alternatives, every uint32-prefixed SSH algorithm/curve name replaced by every other member of its enumeration. Every octet-string constant the library defines (and the RFC 8446 downgrade sentinels) written over every seed at every offset; BER spellings (long-form and indefinite lengths) of the LDAP frames as seeds. The composed form of every object within one deviation of every seed object; reference-encoded certificate options of mixed kinds; all-ones / all-zero words of every field width at every offset.',
         design='§5 C02'),
     'C03': dict(
         technique='exhaustive enumeration of bounded byte-mutation families + suffix families; multi-entry-point '
                   'differential oracle',
         text='Same bounded input space as C02 plus 9 suffixes per accepted frame; on every buffer the three entry '
              'points are compared (n range, in-place remainder, exact-size iff n==len, buffer untouched on failure) '
-             'and framing units are checked against an independent header reader and for self-delimitation. Seeds include BER spellings (long-form, indefinite) of the LDAP frames; every registered SSH name and every library-defined constant is substituted into every seed.',
+             'and framing units are checked against an independent header reader and for self-delimitation. Seeds include BER spellings (long-form, indefinite) of the LDAP frames; every registered SSH name and every library-defined constant is substituted into every seed. Every refused frame (seed or single-octet mutant) of a framing class is parsed again with data behind it; SSL 2.0 hellos whose cipher specs end the record, incl. consistently truncated ones.',
         design='§5 C03'),
     'C04': dict(
         technique='explicit-state BFS over the reader/environment system on the real parse_mutable',
@@ -41,7 +41,7 @@ CHECKS = {
              'bytes delivered) state of every record sequence of length <= 3 (quick) / 4 over a per-layer alphabet, '
              'every delivery the environment may choose after NotEnoughData(k); invariants: no deadlock '
              '(d+k <= end of record in progress), no premature accept, exact reassembly. Plus TLS handshake messages '
-             'cut over records at every set of <= 2-3 positions. Records and handshake messages at the 2^14 / 2^15 / 2^16 boundaries of their length fields (handshake payloads up to 70001 octets) at sparse delivery points; LDAP frames with long-form and four-octet BER lengths in the layer alphabet.',
+             'cut over records at every set of <= 2-3 positions. Records and handshake messages at the 2^14 / 2^15 / 2^16 boundaries of their length fields (handshake payloads up to 70001 octets) at sparse delivery points; LDAP frames with long-form and four-octet BER lengths in the layer alphabet. TLS records of every content type x {TLS 1.0, 1.2, 1.3} x lengths up to 2^14+256.',
         design='§5 C04'),
     'C05': dict(
         technique='exhaustive enumeration of bounded byte-mutation families, filtered to accepted inputs, with a '
@@ -91,7 +91,7 @@ CHECKS = {
              'OpenVPN packet classes x ack arrays of every length 0..255; PostgreSQL; LDAP with every result code: the '
              'reference encoding parses to the TYPE on the wire with the encoded fields, and composing those fields '
              'gives the reference bytes.'
-             ' Every self-delimiting PDU is parsed again with more data behind it; messages built with defaults are compared before and after an earlier instance was edited in place (fresh process per class). LDAP: every assignment of {minimal, 1, 4} length octets to the TLVs of request and response, and lengths across the DER form boundaries.',
+             ' Every self-delimiting PDU is parsed again with more data behind it; messages built with defaults are compared before and after an earlier instance was edited in place (fresh process per class). LDAP: every assignment of {minimal, 1, 4} length octets to the TLVs of request and response, and lengths across the DER form boundaries. MySQL: every auth-plugin part-2 length 0..21 and 247 x plugin name x every other capability; RDP flags compared by enumeration class, both PDU orders in fresh processes.',
         design='§5 C09'),
     'C10': dict(
         technique='complete enumeration of code spaces through the real decoders and list containers',
@@ -111,7 +111,7 @@ CHECKS = {
              'out-of-range values must raise InvalidValue; every subset of every wire flag enum and every word of '
              '1-2 byte flag fields; fixed-length mpints [0,2^16] x 7 lengths; SSH mpints [-2^17,2^17] and +-(2^n+-1); '
              'timestamps (4/8 bytes, s/ms, naive/aware/other-zone, sentinel) on a 7-day (1-day thorough) grid '
-             '1970-2106 plus every UTC-offset transition, under 14 TZ settings. The same TZ settings for every message class with a timestamp field (SCT, RRSIG, certificate validity, hello random), composed and parsed.',
+             '1970-2106 plus every UTC-offset transition, under 14 TZ settings. The same TZ settings for every message class with a timestamp field (SCT, RRSIG, certificate validity, hello random), composed and parsed. Every ordered pair of fields (numeric, SSH mpint, timestamp, raw) written by one composer and read back by one parser.',
         design='§5 C11'),
     'C12': dict(
         technique='explicit-state BFS over edit sequences on real vector objects against a list model',
